@@ -2,6 +2,7 @@
 import json, struct, collections, math
 import os
 import vlib
+import C17_syms
 
 VT = ["g8", "rgb8", "rgb8p", "g16", "g8s", "g32f", "sub", "trn"]
 
@@ -121,6 +122,67 @@ def gen_ops(ctx):
         ops.append("mgen r %s 0" % bits(rnd(-7, 7) if i else 0.0))
         ops.append("mgen t %s %s" % (bits(p[0]), bits(p[1])))
         ops.append("mgen s %s %s" % (bits(a[0]), bits(a[3])))
+    # --- the COMPOUND operator*= (seed C17-matrix-mul-assign-inplace: f computed from the already updated e), chains of *=, m *= m,
+    #     operator*(point, matrix) itself, the point overloads of the generators, center_rotate; all six entries non-trivial
+    full = [m for m in mats[len(small):]]
+    for i, a in enumerate(full):
+        b, c = full[(i * 5 + 1) % len(full)], full[(i * 3 + 2) % len(full)]
+        ops.append("mmuleq " + " ".join(map(bits, a + b)))
+        ops.append("mself " + " ".join(map(bits, a)))
+        n = 2 + i % 3
+        ops.append("mseq %d %s" % (n, " ".join(map(bits, (a + b + c + full[(i * 13 + 7) % len(full)])[:6 * n]))))
+        ops.append("mpt " + " ".join(map(bits, a + [rnd(-100, 100), rnd(-100, 100)])))
+        ops.append("mpti %s %d %d" % (" ".join(map(bits, a)), r.range(-500, 500), r.range(-500, 500)))
+        ops.append("mgenp %s %s %s" % ("tsu"[i % 3], bits(rnd(-50, 50)), bits(rnd(-50, 50))))
+        ops.append("mcr %d %d %s" % (r.range(1, 40), r.range(1, 40), bits(rnd(-3.1, 3.1) if i % 8 else rnd(-12, 12))))
+        ia = [r.range(-60, 60) for _ in range(12)]
+        if i % 7 == 0: ia = [r.range(-1000000, 1000000) for _ in range(12)]
+        for k in "mes": ops.append("iop %s %s" % (k, " ".join(map(str, ia))))
+    # textbook use: identity, *= translate(-c), *= rotate, *= scale, *= translate(c) (doubles), and the same with typical small matrices
+    for t in (0.0, 0.7, -1.3, math.pi / 2, 3.0):
+        tr1, rot, sc, tr2 = [1, 0, 0, 1, -3.0, -5.0], [math.cos(t), math.sin(t), -math.sin(t), math.cos(t), 0, 0], [1.5, 0, 0, 0.75, 0, 0], [1, 0, 0, 1, 3.0, 5.0]
+        ops.append("mmuleq " + " ".join(map(bits, tr2 + rot)))
+        ops.append("mseq 3 " + " ".join(map(bits, tr1 + rot + tr2)))
+        ops.append("mseq 4 " + " ".join(map(bits, tr1 + rot + sc + tr2)))
+        ops.append("mself " + " ".join(map(bits, [math.cos(t), math.sin(t), -math.sin(t), math.cos(t), 2.0, -1.0])))
+    # --- resample_pixels through a map that was COMPOSED step by step with operator*= ...
+    from fractions import Fraction as Fr
+    def mulq(m1, m2):
+        return [m1[0] * m2[0] + m1[1] * m2[2], m1[0] * m2[1] + m1[1] * m2[3], m1[2] * m2[0] + m1[3] * m2[2], m1[2] * m2[1] + m1[3] * m2[3],
+                m1[4] * m2[0] + m1[5] * m2[2] + m2[4], m1[4] * m2[1] + m1[5] * m2[3] + m2[5]]
+    RVT = [v for v in VT if v != "g32f"]
+    # ... with entries k/8 (exact: the judge evaluates the sampler Spec at transform(M1*..*Mn, (x,y)) on the 1/8^n grid)
+    for i in range(400 if th else 48):
+        vt, smp = RVT[i % len(RVT)], "bn"[(i // len(RVT)) % 2]
+        w, h, dw, dh = r.range(1, 6), r.range(1, 6), r.range(2, 7), r.range(2, 7)
+        n = 2 + (i % 2)
+        ms = []
+        for j in range(n - 1):
+            while True:
+                m = [r.range(-12, 12) for _ in range(4)] + [r.range(-40, 40), r.range(-40, 40)]
+                if j == 0 and i % 4 == 1: m = [8, 0, 0, 8, r.range(-40, 40) or 3, r.range(-40, 40) or 5]       # translate first
+                if j == 1 and i % 4 == 2: m = [r.range(-12, 12) or 1, 0, 0, r.range(-12, 12) or 1, 0, 0]         # scale in the middle
+                if m[0] * m[3] - m[1] * m[2] != 0 and (j != n - 2 or i % 4 == 2 or m[1] != 0): break
+            ms.append(m)
+        P = [Fr(1), Fr(0), Fr(0), Fr(1), Fr(0), Fr(0)]
+        for m in ms: P = mulq(P, [Fr(x, 8) for x in m])
+        cx, cy = Fr(dw - 1, 2), Fr(dh - 1, 2)
+        ix, iy = P[0] * cx + P[2] * cy + P[4], P[1] * cx + P[3] * cy + P[5]
+        ex, ey = round((Fr(w - 1, 2) - ix) * 8), round((Fr(h - 1, 2) - iy) * 8)
+        last = [8, 0, 0, 8, ex, ey] if i % 3 else [8, 1, -1, 8, ex, ey]
+        ms.append(last)
+        ops.append("resc %s %s %d %d %d %d %d %s" % (vt, smp, w, h, dw, dh, n, " ".join(str(x) for m in ms for x in m)))
+    # ... and with double matrices: translate(-c) , rotate(t), scale, translate(c') about the destination / source centres, and random full matrices
+    for i in range(300 if th else 40):
+        vt, smp = VT[i % len(VT)], "bn"[(i // len(VT)) % 2]
+        w, h, dw, dh = r.range(1, 6), r.range(1, 6), r.range(2, 7), r.range(2, 7)
+        t, sc = rnd(-3.2, 3.2), rnd(0.4, 1.8)
+        ms = [[1, 0, 0, 1, -(dw - 1) / 2.0 + rnd(-0.3, 0.3), -(dh - 1) / 2.0 + rnd(-0.3, 0.3)],
+              [math.cos(t), math.sin(t), -math.sin(t), math.cos(t), 0, 0]]
+        if i % 2: ms.append([sc, 0, 0, sc * rnd(0.5, 1.5), 0, 0])
+        if i % 5 == 4: ms.insert(1, [1, rnd(-0.5, 0.5), rnd(-0.5, 0.5), 1, rnd(-1, 1), rnd(-1, 1)])
+        ms.append([1, 0, 0, 1, (w - 1) / 2.0 + rnd(-0.3, 0.3), (h - 1) / 2.0 + rnd(-0.3, 0.3)])
+        ops.append("resmf %s %s %d %d %d %d %d %s" % (vt, smp, w, h, dw, dh, len(ms), " ".join(bits(x) for m in ms for x in m)))
     return ops
 
 def nontrivial(op):
@@ -134,7 +196,7 @@ def nontrivial(op):
 def points_of(op):
     w = op.split()
     if w[0] in ("bil", "near", "tap"): return int(w[8])
-    if w[0] in ("res", "rsz", "resf", "resg"): return int(w[5]) * int(w[6])
+    if w[0] in ("res", "rsz", "resf", "resg", "resc", "resmf"): return int(w[5]) * int(w[6])
     if w[0] == "bilc": return (len(w) - 7) // 2
     return 1
 
@@ -151,7 +213,8 @@ ASSUME = [
 ]
 
 def run(ctx, ops=None):
-    obligations, discharged = vlib.standard_proof_steps(ctx, extra_props=["GilVerif.Props.C17Float"])
+    vlib.regen(ctx, C17_syms.NAMESPACE, C17_syms.SYMS)      # matrix3x2 kernels of affine.hpp (T = long) -> lean/GilVerif/Gen/C17.lean
+    obligations, discharged = vlib.standard_proof_steps(ctx, extra_props=["GilVerif.Props.C17Float", "GilVerif.Props.C17Kernel"])
     if any(b[0] == "theorem" and not b[1].startswith("C17_") for b in ctx.broken): discharged = 0
     if not os.path.isfile(os.path.join(ctx.include, "boost/gil/extension/numeric/sampler.hpp")):
         ctx.broken.append(("harness", "include root", "%s does not hold the headers under test" % ctx.include))
@@ -192,9 +255,12 @@ def run(ctx, ops=None):
         rule="op lines: both samplers on a coordinate-recording virtual view over the complete 1/8-pixel grid of [-2,w+1]x[-2,h+1] for 19 source shapes from 1x1 (every row), "
              "values on 8 view kinds (gray8 complete grid, both point types; the others every third row) and on 1, 1/2, 1/4 grids; resample_pixels with random affine maps with entries k/8 "
              "(library loop vs direct sample() loop vs model); resample_pixels with random rotation-scale-translation double matrices and with non-dyadic scale/translate double and float matrices whose images hit integer / half-integer source boundaries, incl. long float rows (model repeats the IEEE operations); bilinear on constant / two-level sources at off-grid float and double points (Float32 / Float replay); resize_view same size and other sizes; matrix3x2<double> product / associativity / inverse / transform / round trip / generators on random "
-             "well-conditioned matrices (bit patterns). non-trivial = grid row that crosses the view, non-identity map, any matrix op (distinct op lines counted)",
+             "well-conditioned matrices (bit patterns); the compound operator*= (mmuleq, chains mseq from the default-constructed identity, self multiplication m *= m), operator*(point, matrix) with double and integer points, "
+             "the point overloads of get_translate / get_scale, center_rotate, matrix3x2<long> product / *= / self (iop), resample_pixels through maps composed step by step with *= "
+             "(resc: entries k/8, Spec judged exactly at transform(M1*..*Mn,(x,y)); resmf: double matrices). non-trivial = grid row that crosses the view, non-identity map, any matrix op (distinct op lines counted)",
         samples=samples, distinct_nontrivial=distinct, assumptions=ASSUME, trusted_base=vlib.TRUSTED_BASE + [
-            "no translated kernels for C17 (floating point templates): the model is hand-written and tied by the correspondence run only",
+            "translated kernels (tools/cxx2lean.py, regenerated every run): matrix3x2 operator=, operator*, operator*=, operator*(point, matrix), get_translate / get_scale (all overloads), instantiated with T = long; "
+            "the samplers, resample_pixels, inverse, get_rotate, center_rotate and the floating point instantiations are hand-modelled and tied by the correspondence run only",
             "Lean Float (IEEE double) and libm cos/sin on the model side of the correspondence (no theorem depends on them)"],
         extra=extra, exhaustive=False)
 
